@@ -103,7 +103,13 @@ impl Transport<ClusterTC> for SimTransport {
     async fn open_replication_stream(&self, peer_id: u32, _m: Arc<MockMembership<ClusterTC>>, _compress: bool) -> Result<ReplicationStream> {
         let (req_tx, req_rx) = mpsc::channel::<AppendEntriesRequest>(128);
         let (resp_tx, resp_rx) = mpsc::channel::<AeResp>(128);
-        self.net.lock().unwrap().links.insert((self.me, peer_id), (req_rx, resp_tx));
+        {
+            // a new stream replaces the old connection: whatever was still in flight on it is gone
+            let mut g = self.net.lock().unwrap();
+            g.links.insert((self.me, peer_id), (req_rx, resp_tx));
+            g.pending_req.remove(&(self.me, peer_id));
+            g.pending_resp.remove(&(self.me, peer_id));
+        }
         use futures::StreamExt;
         Ok(ReplicationStream { sender: req_tx, receiver: tokio_stream::wrappers::ReceiverStream::new(resp_rx).boxed() })
     }
@@ -228,9 +234,26 @@ pub fn run(rt: &tokio::runtime::Runtime, case: Value) -> Value {
             let a = lab[1].as_u64().unwrap_or(0) as u32;
             let mut result = json!([]);
             match k {
-                0 => {
-                    // election timeout at a
+                0 | 13 => {
+                    // election timeout at a (13: only if the leader a follows is gone - heartbeats of a live
+                    // leader keep resetting the timer, so under fair conditions such a node never times out)
                     let ai = (a - 1) as usize;
+                    if k == 13 {
+                        let follows = nodes[ai].leader_rx.borrow().clone();
+                        let (my_role, my_term, _, _) = nodes[ai].raft.as_ref().unwrap().verif_view();
+                        let live = match follows {
+                            Some(l) if l.leader_id >= 1 && l.leader_id <= n => {
+                                let (r, t, _, _) = nodes[(l.leader_id - 1) as usize].raft.as_ref().unwrap().verif_view();
+                                r == 3 && t == l.term && t >= my_term
+                            }
+                            _ => false,
+                        };
+                        if live || my_role == 3 {
+                            let obs: Vec<Value> = nodes.iter().map(observe).collect();
+                            outs.push(json!([obs, []]));
+                            continue;
+                        }
+                    }
                     tokio::time::sleep(std::time::Duration::from_millis(12)).await;
                     {
                         let raft = nodes[ai].raft.as_mut().unwrap();
@@ -273,6 +296,10 @@ pub fn run(rt: &tokio::runtime::Runtime, case: Value) -> Value {
                 }
                 1 | 2 => {
                     let b = lab[2].as_u64().unwrap() as u32;
+                    let drain = k == 1 && lab[3].as_u64().unwrap_or(0) == 2;
+                    let mut rounds = 0;
+                    loop {
+                    rounds += 1;
                     for _ in 0..8 {
                         tokio::task::yield_now().await;
                     }
@@ -298,6 +325,12 @@ pub fn run(rt: &tokio::runtime::Runtime, case: Value) -> Value {
                             net.lock().unwrap().pending_resp.entry((a, b)).or_default().push_back(r);
                         }
                         result = summary;
+                    } else {
+                        break;
+                    }
+                    if !drain || rounds > 64 {
+                        break;
+                    }
                     }
                 }
                 3 | 4 => {
@@ -309,8 +342,20 @@ pub fn run(rt: &tokio::runtime::Runtime, case: Value) -> Value {
                         let tx = g.links.get(&(a, b)).map(|l| l.1.clone());
                         (r, tx)
                     };
-                    if let (3, Some(r), Some(tx)) = (k, resp, tx) {
+                    if let (3, Some(r), Some(tx)) = (k, resp, tx.clone()) {
                         let _ = tx.send(Ok(r)).await;
+                        if lab[3].as_u64().unwrap_or(0) == 2 {
+                            // drain: every pending acknowledgement is delivered
+                            loop {
+                                let nxt = net.lock().unwrap().pending_resp.entry((a, b)).or_default().pop_front();
+                                match nxt {
+                                    Some(r2) => {
+                                        let _ = tx.send(Ok(r2)).await;
+                                    }
+                                    None => break,
+                                }
+                            }
+                        }
                         settle(&mut nodes[(a - 1) as usize]).await;
                         result = json!([1]);
                     }
